@@ -3,4 +3,4 @@ Require Import ExtrOcamlBasic.
 Require Import NS.theories.F64 NS.theories.StrLib NS.theories.Lang NS.theories.PlanCheck.
 Extraction Language OCaml.
 Extraction "extract/ModelLangC03.ml"
-  F64.of_bits F64.to_bits Lang.run_impl PlanCheck.plan_ok PlanCheck.prunable_unreachable.
+  F64.of_bits F64.to_bits Lang.run_impl PlanCheck.plan_ok PlanCheck.plan_ok2 PlanCheck.prunable_unreachable.
